@@ -1634,7 +1634,7 @@ def extra_checks(tier, seed):
                                     'i == len(s) -> s[:i] == s'})
     bounded = _native_bounded(tier, seed)
     for b in bounded:
-        if b.get('error') or (not b.get('cases') and not b.get('note')):
+        if b.get('error') or (not b.get('cases') and not b.get('note') and not b.get('violations')):
             # a bounded stand-in that could not run must not look like a pass
             lemmas.append({'name': b['name'] + '(did-not-run)', 'verdict': 'unknown',
                            'reason': (b.get('error') or 'no cases')[-300:]})
